@@ -28,7 +28,7 @@ def gen(rnd, k):
             S["trf"][dl[0]["id"]] = {"successor": others[0]["id"], "share_conversion_ratio": rnd.choice([0.5, 1.0, 2.0, 0.3276])}
     if k % 6 == 5:
         S["_old_div_layout"] = True        # dividend tables without the book_closure_date column
-    cfgk = trading.gen_config(rnd, S, {"p_reinvest": 0.4, "p_init_pos": 0.2, "pf_roundtrip": k % 3 == 2})
+    cfgk = trading.gen_config(rnd, S, {"p_reinvest": 0.7, "p_init_pos": 0.2, "pf_roundtrip": k % 3 == 2})
     return S, cfgk
 
 
